@@ -27,7 +27,7 @@ func newResult() *result {
 
 func light() int {
 	if os.Getenv("VERIF_LIGHT") != "" {
-		return 6
+		return 8
 	}
 	return 1
 }
@@ -59,7 +59,7 @@ func report(r *vlib.Run, fam string, i int, sc any, res *result) {
 
 func TestVerifC14(t *testing.T) {
 	r := vlib.Start(t, "C14")
-	n := r.N(500, 10000) / light()
+	n := r.N(1200, 15000) / light()
 	for i := 0; i < n; i++ {
 		if !r.Want("client", i) {
 			continue
@@ -70,7 +70,7 @@ func TestVerifC14(t *testing.T) {
 		synctest.Test(t, func(t *testing.T) { res = runClient(sc) })
 		report(r, "client", i, sc, res)
 	}
-	n = r.N(500, 10000) / light()
+	n = r.N(1200, 15000) / light()
 	for i := 0; i < n; i++ {
 		if !r.Want("server", i) {
 			continue
@@ -80,6 +80,20 @@ func TestVerifC14(t *testing.T) {
 		var res *result
 		synctest.Test(t, func(t *testing.T) { res = runServer(sc) })
 		report(r, "server", i, sc, res)
+	}
+	n = r.N(600, 8000) / light()
+	for i := 0; i < n; i++ {
+		if !r.Want("server-race", i) {
+			continue
+		}
+		sc := genServerRace(r.Rand("server-race", i))
+		r.Progress("server-race", i, fmt.Sprintf("steps=%d", len(sc.Steps)))
+		var res *result
+		synctest.Test(t, func(t *testing.T) { res = runServer(sc) })
+		if res.sig != "" {
+			res.sig = "race-" + res.sig
+		}
+		report(r, "server-race", i, sc, res)
 	}
 	r.Finish(vlib.Spec{
 		Level: "exploration",
